@@ -137,10 +137,12 @@ def pfe_rule(F, R, tier):
         return
     num_arg = ratio[2][0][2][0]
     den = ratio[2][1]
+    from .e_trend import window_names
+    QN_, PN_ = window_names(F, v)
     probs = set()
     checked = 0
     for N in range(3, (10 if tier == 'quick' else 33)):
-        st = {'q_vals': [Form({'q%d' % j: 1.0}) for j in range(N)], 'window_len': N}
+        st = {QN_: [Form({'q%d' % j: 1.0}) for j in range(N)], PN_: N}
         ev = LinEval(st, m.up_vg.loops)
         # numerator: powi(DX, 2) + powi(H, 2)
         if not (num_arg[0] == 'op' and num_arg[1] == 'add'):
